@@ -785,3 +785,40 @@ func FromRat(r RatP) AV {
 	}
 	return r
 }
+
+// SubstSquare replaces every square of the symbol sym in the polynomial by the rational function repl
+// (sym^(2k+1) becomes repl^k·sym): the reduction modulo an algebraic identity such as sin² = 1 − cos².
+func (p Poly) SubstSquare(sym string, repl RatP) RatP {
+	out := NumR(0)
+	for mono, c := range p.T {
+		n := 0
+		var rest []string
+		if mono != "" {
+			for _, s := range strings.Split(mono, monoSep) {
+				if s == sym {
+					n++
+				} else {
+					rest = append(rest, s)
+				}
+			}
+		}
+		if n%2 == 1 {
+			rest = append(rest, sym)
+			sort.Strings(rest)
+		}
+		term := PolyR(Poly{T: map[string]*big.Rat{strings.Join(rest, monoSep): new(big.Rat).Set(c)}})
+		for i := 0; i < n/2; i++ {
+			term = term.Mul(repl)
+		}
+		out = out.Add(term)
+	}
+	return out
+}
+
+// SubstSquare applies Poly.SubstSquare to numerator and denominator.
+func (r RatP) SubstSquare(sym string, repl RatP) RatP {
+	return r.N.SubstSquare(sym, repl).Div(r.D.SubstSquare(sym, repl))
+}
+
+// IsZero reports whether the rational function is identically zero.
+func (r RatP) IsZero() bool { return len(r.N.T) == 0 }
